@@ -27,7 +27,7 @@ import (
 const c07Keys = 8
 
 type c07Msg struct {
-	Kind     string `json:"kind"` // eth | send | vest | vestperiodic | vestperm | exec | grant
+	Kind     string `json:"kind"`                // eth | send | vest | vestperiodic | vestperm | exec | grant
 	Depth    int    `json:"depth,omitempty"`     // exec nesting depth (>=1)
 	Inner    string `json:"inner,omitempty"`     // innermost message kind of an exec
 	GrantURL string `json:"grant_url,omitempty"` // generic authorisation target
